@@ -92,6 +92,9 @@ func cmdSingle(args []string) {
 	secs := fs.Float64("seconds", 600, "time budget")
 	strace := fs.Bool("smt", false, "trace SMT")
 	nmi := fs.String("nomergein", "", "comma separated function names")
+	fpm := fs.Bool("fp", false, "mix integer-valued symbolic floats with non-integer constants (IEEE terms)")
+	live := fs.String("live", "", "live solver")
+	cross := fs.Bool("cross", false, "cross-check decided queries and sampled pruning answers on the other solvers")
 	fs.Parse(args)
 	vd := verifDir()
 	work := filepath.Join(vd, "work")
@@ -107,6 +110,9 @@ func cmdSingle(args []string) {
 	cfg.NoMerge = *nomerge
 	cfg.MaxSeconds = *secs
 	traceSMT = *strace
+	cfg.FPMixed = *fpm
+	cfg.CrossCheck = *cross
+	cfg.Live = *live
 	cfg.NoMergeIn = map[string]bool{}
 	for _, f := range strings.Split(*nmi, ",") {
 		if f != "" {
